@@ -41,6 +41,7 @@ func init() {
 		},
 		Run: runC18,
 		Controls: []core.Control{
+			{Name: "wasi-args-not-zero-extended-on-the-compiler", File: "internal/engine/wazevo/call_engine.go", Old: "\t\t\tclearUpper32Bits(s, hostFunctionParamTypes(c.execCtx.goFunctionCallCalleeModuleContextOpaque, index))\n\t\t\tfunc() {\n\t\t\t\tif snapshotEnabled {\n\t\t\t\t\tdefer snapshotRecoverFn(c)\n\t\t\t\t}\n\t\t\t\tf.Call(ctx, mod, s)", New: "\t\t\tfunc() {\n\t\t\t\tif snapshotEnabled {\n\t\t\t\t\tdefer snapshotRecoverFn(c)\n\t\t\t\t}\n\t\t\t\tf.Call(ctx, mod, s)", Rule: "R18.9", Substr: "ExitCodeCallGoModuleFunction"},
 			{Name: "prestat-reports-stdio", File: "imports/wasi_snapshot_preview1/fs.go", Old: "\t} else if isDir, errno := f.File.IsDir(); errno != 0 {\n\t\treturn \"\", errno\n\t} else if !isDir {", New: "\t} else if isDir, errno := f.File.IsDir(); errno != 0 || !isDir {\n\t\treturn \"\", errno\n\t} else if !isDir {", Rule: "R18.8", Substr: "preopenPath"},
 			{Name: "wasi-called-with-another-guests-module", File: "internal/engine/interpreter/interpreter.go", Old: "\t\t\t\t// Revert to a normal call.\n\t\t\t\tce.callFunction(ctx, f.moduleInstance, tf)", New: "\t\t\t\t// Revert to a normal call.\n\t\t\t\tce.callFunction(ctx, m, tf)", Rule: "R18.7", Substr: "calling module"},
 			{Name: "sock-config-written-into-callers-config", File: "runtime.go", Old: "\t\t\tconfig = config.clone() // the caller's configuration must stay unchanged\n", New: "", Rule: "R18.6", Substr: "InstantiateModule"},
